@@ -313,6 +313,10 @@ class TailInterp:
         self.CH = frozenset(ch)
         self.returns = []
         self.uses = 0
+        self._loop_ends = []     # per enclosing loop: envs at `continue`
+        self._loop_broke = []
+        self._post = None        # (call node, {caller variable: AV})
+        self.final = (None, False)
 
     # -- class facts ---------------------------------------------------------
     def has_attr(self, clsname, attr):
@@ -616,6 +620,26 @@ class TailInterp:
                         cenv[p] = AV('noneconst')
                 sub.run(callee, cenv)
                 self.uses += sub.uses
+                # a checking helper: it has no return statement, so it ends
+                # only by falling off its end (or raising) - what it has
+                # established about a list it was handed holds for the
+                # caller's variable afterwards
+                fenv, falive = sub.final
+                if falive and fenv is not None and not any(
+                        isinstance(n, ast.Return)
+                        for n in walk_no_nested(callee.node)):
+                    post = {}
+                    for p, ax in zip(params, e.args):
+                        v = fenv.get(p)
+                        if isinstance(ax, ast.Name) and v is not None and \
+                                v.kind == 'elems' and v.validated and \
+                                not any(isinstance(n, ast.Name) and
+                                        n.id == p and
+                                        isinstance(n.ctx, ast.Store)
+                                        for n in ast.walk(callee.node)):
+                            post[ax.id] = v
+                    if post:
+                        self._post = (e, post)
                 out = None
                 for r in sub.returns:
                     out = r if out is None else join(out, r)
@@ -707,6 +731,12 @@ class TailInterp:
             return env, True
         if isinstance(st, ast.Raise):
             return env, False
+        if isinstance(st, ast.Continue) and self._loop_ends:
+            self._loop_ends[-1].append(env)
+            return env, False
+        if isinstance(st, ast.Break) and self._loop_ends:
+            self._loop_broke[-1] = True
+            return env, False
         if isinstance(st, ast.Return):
             av = self.ev(st.value, env, func)
             if av is not None:
@@ -778,7 +808,12 @@ class TailInterp:
                         lst, AV('elems', item.shapes, False,
                                 origin=norm(c.args[0], 60)))
                 return env, True
+            self._post = None
             self.ev(st.value, env, func)
+            if self._post is not None and self._post[0] is st.value:
+                env = dict(env)
+                env.update(self._post[1])
+            self._post = None
             return env, True
         if isinstance(st, ast.If):
             truth = self.static_truth(st.test, env)
@@ -811,7 +846,22 @@ class TailInterp:
             env2 = dict(env)
             if it is not None and it.kind in ('elems', 'result'):
                 self.bind_target(st.target, it, env2, func, st)
-            env_b, _ = self.block(st.body, env2, func)
+            self._loop_ends.append([])
+            self._loop_broke.append(False)
+            env_b, alive_b = self.block(st.body, env2, func)
+            ends = self._loop_ends.pop()
+            broke = self._loop_broke.pop()
+            if alive_b:
+                ends.append(env_b)
+            if ends:
+                # the state at the end of an iteration: the body's end or
+                # any `continue`
+                env_b = dict(ends[0])
+                for other in ends[1:]:
+                    for k in set(env_b) | set(other):
+                        a, b = env_b.get(k), other.get(k)
+                        env_b[k] = join(a, b) if a is not None and \
+                            b is not None else (a or b)
             out = dict(env)
             # names assigned in the body survive the loop
             for k, v in env_b.items():
@@ -820,7 +870,7 @@ class TailInterp:
                             k == st.target.id):
                         out[k] = join(out.get(k), v) if k in out else v
             # validation: the loop narrowed its element variable
-            if it is not None and it.kind == 'elems' and \
+            if it is not None and it.kind == 'elems' and not broke and \
                     isinstance(st.target, ast.Name) and \
                     isinstance(st.iter, ast.Name):
                 after = env_b.get(st.target.id)
@@ -886,5 +936,5 @@ class TailInterp:
         self.ev(test, env, func)
 
     def run(self, func, env):
-        self.block(func.body, env, func)
+        self.final = self.block(func.body, env, func)
         return self.returns
